@@ -1,12 +1,12 @@
 #!/bin/sh
-# tools/confirm_free.sh <W>: confirm the (up to four) changes a sub-agent of the free-range round left in /tmp/seed7/<W>.out - each names the
+# tools/confirm_free.sh <W> [base dir=/tmp/seed7]: confirm the (up to four) changes a sub-agent of the free-range round left in $B/<W>.out - each names the
 # property it breaks most directly in its meta file - and store each under the next free index of that property's seeds (check deferred to
-# tools/par_recheck.py); removes the agent's worktree /tmp/seed7/<W>.
-W=$1
-git -C /repo worktree remove --force /tmp/seed7/$W 2>/dev/null; git -C /repo worktree prune
+# tools/par_recheck.py); removes the agent's worktree $B/<W>.
+W=$1; B=${2:-/tmp/seed7}
+git -C /repo worktree remove --force $B/$W 2>/dev/null; git -C /repo worktree prune
 for i in 1 2 3 4; do
-  [ -f /tmp/seed7/$W.out/patch$i.diff ] || { echo "$W: no patch$i.diff"; continue; }
-  P=$(/venv/bin/python -c "import json;print(json.load(open('/tmp/seed7/$W.out/meta$i.json'))['property'])")
+  [ -f $B/$W.out/patch$i.diff ] || { echo "$W: no patch$i.diff"; continue; }
+  P=$(/venv/bin/python -c "import json;print(json.load(open('$B/$W.out/meta$i.json'))['property'])")
   MAX=$(ls -d /verif/seeded/$P-* 2>/dev/null | sed "s/.*$P-//" | sort -n | tail -1); MAX=${MAX:-0}
-  NOCHECK=1 /verif/tools/confirm_seed.sh $P $i $P /tmp/seed7/$W.out $((MAX+1)) 2>&1 | tail -2
+  NOCHECK=1 /verif/tools/confirm_seed.sh $P $i $P $B/$W.out $((MAX+1)) 2>&1 | tail -2
 done
